@@ -491,7 +491,45 @@ def gen_margin(rng, tier):
             "cards": cards, "tally": tally}
 
 
+def gen_options(rng, tier):
+    """call forms the main stream never uses (OPTIONS_AUDIT.md):
+      * `call: defaults` -- Assorter.mean / sum, Assertion.margin without `use_style` where it is True, Contest.tally without
+        `enforce_rules` where it is True (both the documented defaults), keyword form otherwise;
+      * `tally_siblings` -- Contest.tally on a dict that holds more contests than the case's own (a plurality contest
+        "other" in which many cards carry a mark, an IRV contest that is skipped), before or after it;
+      * `tally_arg` -- find_margin_from_tally with the tally as its documented ARGUMENT while the Contest object holds
+        another one."""
+    u = rng.random()
+    if u < 0.25:
+        c = gen_margin(rng, tier)
+        c["tally_arg"] = rng.choice(["kw", "pos"])
+        return c
+    c = gen_sequence(rng, tier) if rng.chance(0.25) else gen_contest(rng, tier)
+    if rng.chance(0.6):
+        c["call"] = "defaults"
+    if "call" not in c or rng.chance(0.6):
+        ids = rng.choice([["other"], ["other"], ["other", "ranked"], ["ranked"]])
+        c["tally_siblings"] = {"ids": ids, "first": rng.chance(0.5)}
+        if "other" in ids and not c.get("rounds"):
+            # more cards with a mark in the sibling contest (a card listing both contests is where two tallies could mix)
+            for cv in c["cvrs"]:
+                if all(k != "other" for k, _ in cv["votes"]) and rng.chance(0.6):
+                    first = rng.choice(["x", "y"])
+                    cv["votes"].append(["other", [[first, rng.choice([True, 1, "marked"])]]
+                                        + ([["y" if first == "x" else "x", True]] if rng.chance(0.15) else [])])
+    return c
+
+
 def gen(rng, n, tier):
+    import hashlib
+    from ..core import Rng
+    opt = Rng(int(hashlib.sha1(("options" + repr(rng.getstate())).encode()).hexdigest()[:15], 16))
+    yield from gen_main(rng, n, tier)
+    for _ in range(max(8, n // 10)):
+        yield gen_options(opt, tier)
+
+
+def gen_main(rng, n, tier):
     for i in range(n):
         u = rng.random()
         if u < 0.50:
@@ -563,30 +601,62 @@ def _try(f):
         return {"st": "err", "err": err_kind(e)}
 
 
-def _field(a, f, cvrs):
+def _field(a, f, cvrs, dflt=False):
     from shangrla.core.Audit import Assertion
     style = f.endswith("_style")
+    # `dflt`: style-based evaluation is the default of mean / sum / margin -- the argument is left out
+    kw = {} if (dflt and style) else {"use_style": style}
     if f.startswith("mean"):
-        return _num(a.assorter.mean(cvrs, use_style=style))
+        return _num(a.assorter.mean(cvrs, **kw))
     if f.startswith("sum"):
-        return _num(a.assorter.sum(cvrs, use_style=style))
+        return _num(a.assorter.sum(cvrs, **kw))
     # the method Assertion.margin is shadowed by the instance attribute `margin`; call it through the class
-    return _num(Assertion.margin(a, cvrs, use_style=style))
+    return _num(Assertion.margin(a, cvrs, **kw))
 
 
-def _evaluate(cons, con, cid, cvrs, order):
+def _siblings(cons, cid, opts):
+    """`tally_siblings`: the dict handed to Contest.tally holds other contests of the same election besides the case's
+    own -- a plurality contest "other" (cards of the case may carry marks in it) and / or an IRV contest (not tabulated:
+    Contest.tally warns and skips it) --, before or after it.  The tally of the case's own contest is a function of the
+    cards' marks in that contest alone."""
+    sib = (opts or {}).get("tally_siblings")
+    if not sib:
+        return cons
+    from shangrla.core.Audit import Contest
+    extra = {}
+    for k in sib["ids"]:
+        if k == "other":
+            extra[k] = Contest.from_dict({"id": "other", "name": "other", "choice_function": PLUR, "n_winners": 1,
+                                          "candidates": ["x", "y"], "winner": ["x"], "cards": 10})
+        else:
+            extra[k] = Contest.from_dict({"id": k, "name": k, "choice_function": IRV, "n_winners": 1,
+                                          "candidates": ["x", "y", "z"], "winner": ["x"], "cards": 10})
+    return {**extra, **cons} if sib["first"] else {**cons, **extra}
+
+
+def _evaluate(cons, con, cid, cvrs, order, opts=None):
     """everything the group observes, of the assertions `con.assertions`, on the list `cvrs` as it is now"""
     from shangrla.core.Audit import Contest
+    import warnings
+    dflt = (opts or {}).get("call") == "defaults"
     out = {}
     for key, a in con.assertions.items():
         o = {"winner": a.winner, "loser": a.loser, "upper": _num(a.assorter.upper_bound),
              "vals": [_num(a.assorter.assort(c)) for c in cvrs]}
         for f in order:
-            o[f] = _field(a, f, cvrs)
+            o[f] = _field(a, f, cvrs, dflt)
         out[key] = o
     tallies = {}
+    tcons = _siblings(cons, cid, opts)
     for enforce, tag in ((True, "enforce"), (False, "noenforce")):
-        Contest.tally(cons, cvrs, enforce_rules=enforce)
+        with warnings.catch_warnings():
+            warnings.simplefilter("ignore")
+            if dflt and enforce:
+                Contest.tally(tcons, cvrs)              # enforce_rules=True is the default
+            elif dflt:
+                Contest.tally(con_dict=tcons, cvr_list=cvrs, enforce_rules=False)
+            else:
+                Contest.tally(tcons, cvrs, enforce_rules=enforce)
         tallies[tag] = {k: int(v) for k, v in con.tally.items()}
         for key, a in con.assertions.items():
             def f(a=a):
@@ -641,11 +711,11 @@ def impl_contest(case):
         Assertion.make_all_assertions(cons)
     hist = []
     for r in rounds:
-        res = _evaluate(cons, con, cid, cvrs, r.get("order") or FIELDS)
+        res = _evaluate(cons, con, cid, cvrs, r.get("order") or FIELDS, case)
         res["state"] = _readback(cvrs)
         hist.append(res)
         _amend(cvrs, r["ops"])
-    res = _evaluate(cons, con, cid, cvrs, case.get("order") or FIELDS)
+    res = _evaluate(cons, con, cid, cvrs, case.get("order") or FIELDS, case)
     if rounds:
         res["rounds"] = hist
         res["state"] = _readback(cvrs)
@@ -718,7 +788,16 @@ def impl_margin(case):
                   assorter=Assorter(contest=con, assort=lambda c: 0.5, upper_bound=1))
 
     def f():
-        a.find_margin_from_tally()
+        if case.get("tally_arg") and len(t) > 0:
+            # the tally handed over as the documented argument; what the Contest object holds is another (stale) one
+            con.tally = defaultdict(int, {k: v + 7 for k, v in t.items()})
+            con.tally["nobody"] = 3
+            if case["tally_arg"] == "kw":
+                a.find_margin_from_tally(tally=t)
+            else:
+                a.find_margin_from_tally(t)
+        else:
+            a.find_margin_from_tally()
         return a.margin
     return {"st": "ok", "margin": _try(f)}
 
